@@ -120,8 +120,11 @@ DnsPrettify(m, transport) ==
   \* prettify_message(msg, flow, "dns"): YAML text; ruamel writes control characters as escapes
   /\ Emit(<<[k |-> "render", mode |-> "explicit", req |-> "dns", msg |-> transport, content |-> "present",
              inctl |-> (m.q = "ctl"), raised |-> "", view |-> "dns", via |-> "view", cls |-> <<"sp", "print">>]>>)
+\* https_hi: SvcPriority >= 0x8000 (read and written signed); dname/mx/soa: well-formed RDATA of name-bearing types
+\* that _data_json does not decode (shown as plain hex, taken back by the hex fallback of from_json)
 RType(rr) == CASE rr \in {"txt", "txt_bad"} -> 16 [] rr \in {"cname", "cname_bad"} -> 5 [] rr = "a" -> 1
-               [] rr \in {"https", "https_hi"} -> 65   \* https_hi: SvcPriority >= 0x8000 (read and written signed) [] rr = "opt" -> 41 [] OTHER -> 99
+               [] rr \in {"https", "https_hi"} -> 65 [] rr = "opt" -> 41 [] rr = "dname" -> 39 [] rr = "mx" -> 15
+               [] rr = "soa" -> 6 [] OTHER -> 99
 DnsReencode ==
   /\ Live /\ pc = "dnsrendered"
   /\ pc' = "idle" /\ call' = NoCall /\ UNCHANGED calls
